@@ -83,7 +83,7 @@ impl Check for C01 {
         }
         if run % 40_000 == 13 {
             // one giant block (>= 65 536 children)
-            return vmgen::gen_giant(g);
+            return vmgen::gen_giant_nth(g, run / 40000);
         }
         if run % 2500 == 1249 {
             // a long execution of a looping program, compared with a model-only run at the end
